@@ -33,7 +33,7 @@ func init() {
 		Assumptions: []string{"sqrtInverse replaced by the stub vStub_sqrtInverse (same frame: overwrites z through the real Mul)", archNote},
 		LevelText:   "Bounded symbolic model checking of the decidable half of C05: special values, ErrNaN, attribute preservation (precision AND rounding mode), operand immutability and the exponent bookkeeping of Sqrt, for all values in the bound. The numeric half (correctly rounded root) is outside the reach of solver-based checking here and is NOT claimed.",
 		LevelNote:   "Partial: the value of the root is not verified. " + trusted,
-		Timeout:     map[string]time.Duration{"quick": 60 * time.Second, "thorough": 300 * time.Second},
+		Timeout:     map[string]time.Duration{"quick": 150 * time.Second, "thorough": 300 * time.Second},
 	})
 	Register(&PropDef{
 		ID: "C06", Level: "model_checking", Contracts: "decDigits64,magic.div,div10W_g", DesignRef: "DESIGN.md 5 (C06), 2.4",
